@@ -1651,3 +1651,64 @@ package gogen
 //@ requires v != nil && p.pkg != nil
 //@ assertcall FormatInt: arg_i == BigVal(v) && arg_base == 10
 //@ assertcall String: arg_recv == v
+
+// ---------------------------------------------------------------------------
+// C07 — the adapter onto go/types' inference: go/types must be asked with operands that mirror the builder's arguments
+
+//@ func exprString
+//@ trusted
+//@ readonly
+//@ func getParamsTypes
+//@ trusted
+//@ readonly
+//@ func infer
+//@ trusted
+//@ readonly
+
+// argument list handed to the inference (Go spec "Calls" arity for generic functions): fixed arity needs exactly as
+// many arguments as parameters; a variadic call needs at least the fixed prefix, keeps the arguments as they are under
+// "...", and otherwise replaces the variadic tail by one synthetic operand: of the declared slice type when no variadic
+// argument is given (not inferable when its element is a type parameter), of type []Default(T) of the first variadic
+// argument otherwise
+//@ func checkInferArgs
+//@ prop C07
+//@ readonly
+//@ requires pkg != nil && pkg.cb.fset != nil && fn != nil && sig != nil && flags >= 0 && forall(i, 0, len(args), args[i] != nil && args[i].Type != nil)
+//@ requires imp(sig.Variadic(), sig.Params().Len() >= 1 && typeis(sig.Params().At(sig.Params().Len() - 1).Type(), *types.Slice))
+//@ loop 0 invariant 0 <= i && i <= nreq - 1 && nreq == sig.Params().Len() && nargs == len(args) && nreq - 1 <= nargs && len(res) == nreq && fresh(res) && forall(j, 0, i, res[j] == args[j])
+//@ ensures imp(!sig.Variadic(), (result1 == nil) == (len(args) == sig.Params().Len()) && imp(result1 == nil, result0 == args))
+//@ ensures imp(sig.Variadic() && len(args) < sig.Params().Len() - 1, result1 != nil)
+//@ ensures imp(sig.Variadic() && len(args) >= sig.Params().Len() - 1 && flags % 2 == 1, result1 == nil && result0 == args)
+//@ ensures imp(sig.Variadic() && len(args) >= sig.Params().Len() - 1 && flags % 2 == 0 && result1 == nil, len(result0) == sig.Params().Len() && forall(j, 0, sig.Params().Len() - 1, result0[j] == args[j]) && result0[sig.Params().Len() - 1] != nil && fresh(result0[sig.Params().Len() - 1]))
+//@ ensures imp(sig.Variadic() && len(args) == sig.Params().Len() - 1 && flags % 2 == 0, (result1 == nil) == !typeis(sig.Params().At(sig.Params().Len() - 1).Type().(*types.Slice).Elem(), *types.TypeParam) && imp(result1 == nil, result0[sig.Params().Len() - 1].Type == sig.Params().At(sig.Params().Len() - 1).Type()))
+//@ ensures imp(sig.Variadic() && len(args) >= sig.Params().Len() && flags % 2 == 0, result1 == nil && typeis(result0[sig.Params().Len() - 1].Type, *types.Slice) && result0[sig.Params().Len() - 1].Type.(*types.Slice).Elem() == types.Default(args[sig.Params().Len() - 1].Type))
+
+// the operand list handed to go/types' inference mirrors the argument list position by position: a computed value
+// (mode `value`) carrying the argument's expression, constant value and type (for a generic function value that is
+// still to be inferred, its generic signature); the type parameters are the callee's own, in order, followed by those
+// of generic function-valued arguments; the result signature is the instantiation with the first n inferred arguments
+//@ func inferFunc
+//@ prop C07
+//@ partial
+//@ requires pkg != nil && fn != nil && sig != nil && forall(i, 0, len(args), args[i] != nil)
+//@ loop 0 invariant 0 <= i && i <= n && n == sig.TypeParams().Len() && len(tparams) == n
+//@ loop 2 invariant len(xlist) == len(args) && forall(j, 0, rangeidx + 1, OperandMirrors(xlist[j], args[j]))
+//@ loop 3 invariant len(xlist) == len(args) && 0 <= i && i < len(args) && xlist[i] != nil && xlist[i].mode == 7 && xlist[i].expr == args[i].Val && xlist[i].val == args[i].CVal && xlist[i].typ == args[i].Type && ElemPeel(tt) == ElemPeel(args[i].Type) && forall(j, 0, i, OperandMirrors(xlist[j], args[j]))
+//@ assertcall infer: arg_args == xlist && len(arg_args) == len(args) && forall(j, 0, len(args), OperandMirrors(arg_args[j], args[j])) && arg_params == params && arg_posn == asI(fn.Val, positioner)
+//@ assertcall Instantiate: arg_orig == asI(sig, types.Type) && len(arg_targs) == n && n == sig.TypeParams().Len()
+
+// leading explicit type arguments of type-as-parameter functions (XGox_/XGot_): the explicit arguments are the maximal
+// prefix (after the receiver, for XGot_) of type operands, at least one; all of them explicit means direct
+// instantiation with exactly those types, otherwise they seed the inference over the remaining value arguments; the
+// emitted index list is the explicit expressions followed by the printed inferred types, one per type parameter
+//@ func boundTypeParams
+//@ prop C07
+//@ partial
+//@ requires p != nil && fn != nil && sig != nil && flags >= 0 && forall(i, 0, len(args), args[i] != nil)
+//@ requires len(args) >= ite((flags / 8) % 2 == 1, 1, 0) + sig.TypeParams().Len()
+//@ loop 0 invariant 0 <= i && i <= n && m == i && n == sig.TypeParams().Len() && from == ite((flags / 8) % 2 == 1, 1, 0) && len(targs) == n && forall(j, 0, i, typeis(args[from + j].Type, *TypeType) && targs[j] == args[from + j].Type.(*TypeType).typ)
+//@ loop 1 invariant 0 <= i && i <= m && len(indices) == n && forall(j, 0, i, indices[j] == entry(args)[from + j].Val)
+//@ loop 2 invariant m <= i && i <= n && len(indices) == n && forall(j, 0, m, indices[j] == entry(args)[from + j].Val)
+//@ assertcall Instantiate: m == n && arg_orig == asI(sig, types.Type) && arg_targs == targs && forall(j, 0, n, targs[j] == args[from + j].Type.(*TypeType).typ)
+//@ assertcall inferFunc: 1 <= m && m < n && arg_sig == sig && arg_targs == targs && arg_fn == fn && forall(j, 0, m, typeis(args[from + j].Type, *TypeType) && targs[j] == args[from + j].Type.(*TypeType).typ) && !typeis(args[from + m].Type, *TypeType)
+//@ assertcall inferFunc: len(arg_args) == len(args) - m && imp(from == 0, forall(j, 0, len(arg_args), arg_args[j] == args[m + j])) && imp(from == 1, arg_args[0] == args[0] && forall(j, 1, len(arg_args), arg_args[j] == args[m + j]))
